@@ -455,7 +455,7 @@ Qed.
    handler (whenever that body renders) *)
 Theorem render_error_has_body v mf r x h r' b :
   render mf r = inr x -> catchable x = true ->
-  handle_exception v r x = (Handled, h, r') -> render mf r' = inl b ->
+  handle_exception_enc v r x = (Handled, h, r') -> render mf r' = inl b ->
   finish true v mf r = (Response (r_status r') (r_headers r') b, [h]).
 Proof.
   intros Hr Hc Hh Hr'. unfold finish. rewrite Hr, Hc, Hh, Hr'. reflexivity.
@@ -465,7 +465,7 @@ Qed.
 Theorem render_error_body_refuted_before_fix :
   exists v mf r x h r' b,
     render mf r = inr x /\ catchable x = true /\
-    handle_exception v r x = (Handled, h, r') /\ render mf r' = inl b /\ b <> BNone /\
+    handle_exception_enc v r x = (Handled, h, r') /\ render mf r' = inl b /\ b <> BNone /\
     finish false v mf r = (Response (r_status r') (r_headers r') BNone, [h]).
 Proof.
   set (x := {| x_mro := [5%nat; c_Exception; c_BaseException; c_object]; x_payload := PNone |}).
@@ -499,23 +499,35 @@ Proof.
 Qed.
 
 (* the partial statement that IS true: every object the app catches goes to its nearest handler *)
+Lemma handle_hid v r x :
+  snd (fst (handle_exception v r x)) = find_error_handler (v_reg v) (x_mro x).
+Proof.
+  unfold handle_exception. destruct (find_error_handler (v_reg v) (x_mro x)) as [[| | |n]|]; try reflexivity.
+  - destruct (x_payload x); reflexivity.
+  - destruct (x_payload x); reflexivity.
+  - destruct (h_end (script_of v n)); reflexivity.
+Qed.
+
+Lemma handle_enc_hid v r x :
+  snd (fst (handle_exception_enc v r x)) = find_error_handler (v_reg v) (x_mro x).
+Proof.
+  rewrite <- (handle_hid v r x). unfold handle_exception_enc.
+  destruct (handle_exception v r x) as [[o h] r']. destruct o; try reflexivity.
+  destruct (composed_error v x) as [e|]; [|reflexivity]. destruct (encode_ok (v_ncfg v) e); reflexivity.
+Qed.
+
 Theorem request_uses_nearest_partial fixed hist scripts ncfg mf r0 w x :
   catchable x = true ->
   let v := {| v_reg := replay init_registry hist; v_scripts := scripts; v_ncfg := ncfg |} in
   hd None (snd (request fixed v mf r0 w (Some x))) = spec_handler hist (x_mro x).
 Proof.
   intros Hc v. unfold request. rewrite Hc. cbn [negb].
-  pose proof (handler_is_nearest hist (x_mro x)) as Hn.
-  unfold handle_exception. replace (v_reg v) with (replay init_registry hist) by reflexivity.
-  rewrite Hn.
-  Ltac fin := match goal with
-              | |- context [finish ?a ?b ?c ?d] => destruct (finish a b c d); reflexivity
-              end.
-  destruct (spec_handler hist (x_mro x)) as [[| | |n]|]; try reflexivity.
-  - fin.
-  - destruct (x_payload x); try reflexivity. fin.
-  - destruct (x_payload x); try reflexivity. fin.
-  - destruct (h_end (script_of v n)); try reflexivity; fin.
+  pose proof (handle_enc_hid v (apply_writes w r0) x) as Hh.
+  replace (v_reg v) with (replay init_registry hist) in Hh by reflexivity.
+  rewrite handler_is_nearest in Hh.
+  destruct (handle_exception_enc v (apply_writes w r0) x) as [[o h] r']. simpl in Hh. subst h.
+  destruct o; try reflexivity.
+  destruct (finish fixed v mf r'). reflexivity.
 Qed.
 
 (* ------------------------------------------------------------------ the oracle accepts the model *)
